@@ -7,7 +7,7 @@ import z3
 
 from pyvc.values import *
 from pyvc.values import _t, _b
-from pyvc.engine import Contract, Loop
+from pyvc.engine import Contract, Loop, PyRaise, Unsupported
 from .mime import BYTES
 
 F = 'pymap/parsing/primitives.py'
@@ -234,3 +234,140 @@ lit_write = Contract(
     calls={'writer.write': _writer_write}, ghost_init=_lit_ghost, raises_only=(), modifies=[])
 lit_write.binop_model = _format_model
 CONTRACTS = [build_bytes, lit_init, lit_write]
+
+
+# ---------------------------------------------------------------- LiteralString.parse (C18: {n} and {n+} mean the same)
+# ASSUMED model of re.match for the fixed pattern (~?){(\d+)(\+?)}\r?\n at `start`: when it matches, group 1 is b'~' or
+# b'', group 2 is a digit string whose int() value is the ghost number m.n >= 0, group 3 is b'+' or b'', and end(0) is
+# a position with start + 4 <= end <= len(buf) whose last byte is LF.  Cross-checked against re by the bounded run.
+ParamsS = RefS('Params', allow_continuations=BOOL)
+
+
+def _lit_match(ex, frame, e, base=None):
+    args, kw = ex.eval_args(e, frame)
+    buf, start = args[0], _t(args[1])
+    if not ex.decide(VBool(z3.Bool(fresh_name('literal_header_matches')))):
+        return VNone()
+    end = z3.Int(fresh_name('m.end'))
+    n = z3.Int(fresh_name('m.n'))
+    ex.assume(z3.And(end >= start + 4, end <= buf.n, n >= 0, z3.Select(buf.arr, end - 1) == LF))
+    ex.st.ghost['m.end'] = VInt(end)
+    ex.st.ghost['m.n'] = VInt(n)
+    ex.st.ghost['m.bin'] = VBool(z3.Bool(fresh_name('m.bin')))
+    ex.st.ghost['m.plus'] = VBool(z3.Bool(fresh_name('m.plus')))
+    ex.st.ghost['matched'] = VBool(True)
+    return VConst('literal-match')
+
+
+def _lit_group(ex, frame, e, base=None):
+    args, kw = ex.eval_args(e, frame)
+    g = z3.simplify(_t(args[0])).as_long()
+    if g in (1, 2, 3):
+        return VConst(f'group{g}')
+    raise Unsupported('group')
+
+
+def _lit_end(ex, frame, e, base=None):
+    return ex.st.ghost['m.end']
+
+
+def _lit_equal_hook(ex, a, b):
+    """match.group(1) == b'~' and match.group(3) == b'+' (the groups are opaque markers)"""
+    if isinstance(a, VConst):
+        if a.py == 'group1':
+            return ex.st.ghost['m.bin']
+        if a.py == 'group3':
+            return ex.st.ghost['m.plus']
+    return None
+
+
+def _int_of_group(ex, frame, e, base=None):
+    return ex.st.ghost['m.n']
+
+
+def _expect(ex, frame, e, base=None):
+    """ExpectContinuation.expect(state): the continuation data the client sent after '+ ' (any bytes), or
+    ParsingInterrupt when none is buffered yet (the connection then asks for it and parses the line again)"""
+    from pymap.parsing.state import ParsingInterrupt
+    if ex.decide(VBool(z3.Bool(fresh_name('continuation_buffered')))):
+        cont = BYTES.fresh('continuation')
+        ex.assume(cont.n >= 0)
+        ex.st.ghost['cont'] = cont
+        ex.st.ghost['used_cont'] = VBool(True)
+        return cont
+    raise PyRaise(ParsingInterrupt)
+
+
+def _lit_ctor(ex, frame, e, base=None):
+    args, kw = ex.eval_args(e, frame)
+    return VTuple([args[0], args[1]])
+
+
+def _lp_ghost(st, scope=None):
+    st.ghost['matched'] = VBool(False)
+    st.ghost['used_cont'] = VBool(False)
+    st.ghost['cont'] = VList(0, z3.K(z3.IntSort(), z3.IntVal(0)), INT)
+    for k in ('m.end', 'm.n'):
+        st.ghost[k] = VInt(0)
+    for k in ('m.bin', 'm.plus'):
+        st.ghost[k] = VBool(False)
+
+
+def _src(s):
+    """the buffer the literal bytes come from and the offset where they start"""
+    return s
+
+
+from pymap.parsing.state import ParsingInterrupt  # noqa: E402
+
+lit_parse = Contract(
+    'C18', F, 'LiteralString.parse', params=dict(cls=NoneS(), buf=BYTES, params=ParamsS),
+    requires=[('bytes_are_bytes', lambda s: forall(lambda i: implies((i >= 0) & (i < s.buf.len), (s.buf[i] >= 0) & (s.buf[i] <= 255))))],
+    ensures=[
+        ('the_value_has_the_announced_length', lambda s: s.result[0][0].len == s.ghost('m.n')),
+        ('non_synchronizing_form_takes_the_n_bytes_after_the_header', lambda s: implies(
+            s.ghost('m.plus'), forall(lambda i: implies((i >= 0) & (i < s.ghost('m.n')),
+                                                        s.result[0][0][i] == s.buf[s.ghost('m.end') + i])) &
+            (s.result[1].len == s.buf.len - s.ghost('m.end') - s.ghost('m.n')) &
+            forall(lambda i: implies((i >= 0) & (i < s.result[1].len),
+                                     s.result[1][i] == s.buf[s.ghost('m.end') + s.ghost('m.n') + i])))),
+        ('synchronizing_form_takes_the_first_n_bytes_of_the_continuation', lambda s: implies(
+            ~s.ghost('m.plus'), s.ghost('used_cont') & forall(lambda i: implies(
+                (i >= 0) & (i < s.ghost('m.n')), s.result[0][0][i] == s.ghost('cont')[i])) &
+            (s.result[1].len == s.ghost('cont').len - s.ghost('m.n')) &
+            forall(lambda i: implies((i >= 0) & (i < s.result[1].len), s.result[1][i] == s.ghost('cont')[s.ghost('m.n') + i])))),
+        ('binary_marker_is_the_tilde', lambda s: s.result[0][1] == s.ghost('m.bin')),
+        ('synchronizing_form_has_nothing_after_the_header_on_its_line', lambda s: implies(~s.ghost('m.plus'),
+                                                                                          s.ghost('m.end') == s.buf.len))],
+    raises={NotParseable: [], ParsingInterrupt: [('only_when_the_continuation_is_still_missing', lambda s: s.ghost('matched') & ~s.ghost('m.plus'))]},
+    raises_only=(NotParseable, ParsingInterrupt),
+    calls={'cls._whitespace_length': _ws_len, 'cls._literal_pattern.match': _lit_match, 'match.group': _lit_group,
+           'match.end': _lit_end, 'int': _int_of_group, 'cls._check_too_big': lambda ex, frame, e, base=None: VBool(z3.Bool(fresh_name('too_big'))),
+           'ExpectContinuation': lambda ex, frame, e, base=None: VConst('expectation'), 'expected.expect': _expect,
+           'cls': _lit_ctor},
+    ghost_init=_lp_ghost, modifies=[])
+lit_parse.equal_model = _lit_equal_hook
+
+
+def _qs_lift(result, lifter):
+    obj, rest = result
+    return VTuple([VTuple([lifter.lift(BYTES, list(obj.value)), lifter.lift(BYTES, list(bytes(obj)))]),
+                   lifter.lift(BYTES, list(bytes(rest)))])
+
+
+def _qs_ghost(st, lifter, data):
+    buf = bytes(data['buf'])
+    st.ghost['start'] = VInt(len(buf) - len(buf.lstrip(b' ')))
+
+
+def _qs_candidates():
+    import itertools
+    for n in range(0, 6):
+        for t in itertools.product((34, 32, 97, 92, 13), repeat=n):
+            yield dict(cls=None, buf=list(t), params=None)
+
+
+qs_parse.lift_result = _qs_lift
+qs_parse.concrete_ghost = _qs_ghost
+qs_parse.replay_candidates = _qs_candidates
+CONTRACTS_C18 = [qs_parse, lit_parse]
